@@ -505,7 +505,7 @@ one the client computed from what it sent (`sha256` of the bytes, their length, 
 backend's descriptor — media type, digest algorithm, annotations — does not come back. -/
 theorem manifestPut_round_trip (H : Bytes → Bytes) (resolve : Bytes → Option Bytes) (o : SrvOpts) (q : SrvReq)
     (d own : Desc) (hk : q.r.kind = .manifestPut) (hdig : q.r.tag ≠ [] ∨ q.r.digest = H q.body)
-    (hsubj : q.subject ≠ none) (hmt : own.mediaType ≠ []) :
+    (hmt : own.mediaType ≠ []) :   -- the hypothesis `q.subject ≠ none` of old is not needed since fix F25 (auditor A2)
     ∃ r, serverResp H o q (.desc d) = .resp r ∧ r.status = 201 ∧
       hget r.hdr hLocation = sV2Slash ++ q.r.repo ++ strBytes "/manifests/" ++ d.digest ∧
       hget r.hdr hDigest = d.digest ∧
@@ -520,7 +520,7 @@ theorem manifestPut_round_trip (H : Bytes → Bytes) (resolve : Bytes → Option
     by_cases hct : q.contentType = mtImageManifest ∨ q.contentType = mtImageIndex
     · rw [if_pos hct]
       cases hq : q.subject with
-      | none => exact absurd hq hsubj
+      | none => exact ⟨_, rfl⟩
       | some sj => cases sj <;> exact ⟨_, rfl⟩
     · rw [if_neg hct]
       exact ⟨_, rfl⟩
